@@ -11,7 +11,7 @@ META = {
 
 
 def run(c):
-    c.tlc_mc("KBucket", c.pick("MCKBucket_q.cfg", "MCKBucket.cfg"), timeout=1500)
+    c.tlc_mc("KBucket", c.pick("MCKBucket_q38.cfg", "MCKBucket.cfg"), timeout=1500)   # quick: no time passes (same reachable key sets)
     c.tlc_mc("KBucket", "MCKBucket_canary38.cfg", expect="ClosestOK")
     drv = c.build("drv-kad")
     nontriv = 0
